@@ -438,3 +438,175 @@ Proof.
       * destruct (1 <? length w); [specialize (L1 (swap_idxs cs w ex))|cbn [length]]; lia.
       * lia.
 Qed.
+
+(** ... and in 32-bit words: a range draw below 2^32 takes one word, or two when Canon's method
+    draws again; a weighted sample takes two (one u64) *)
+Lemma skip_add a b st : skip (a + b) st = skip b (skip a st).
+Proof. revert st. induction a as [|a IH]; intros st; cbn [skip Nat.add]; [reflexivity|apply IH]. Qed.
+
+Lemma canon32_words n st x st' : canon next_u32 32 n st = (x, st') -> st' = skip 1 st \/ st' = skip 2 st.
+Proof.
+  unfold canon. cbv zeta. destruct (next_u32 st) as [a st1] eqn:E1. cbn [skip]. rewrite E1. cbn [snd].
+  destruct (N.ltb _ _).
+  - destruct (next_u32 st1) as [b st2] eqn:E2. intros H. apply (f_equal snd) in H. cbn [snd] in H. subst st'.
+    right. reflexivity.
+  - intros H. apply (f_equal snd) in H. cbn [snd] in H. subst st'. left. reflexivity.
+Qed.
+
+Lemma pick_idx_words n st j st' : (N.of_nat n <= mask32)%N -> pick_idx n st = Some (j, st') ->
+  st' = skip 1 st \/ st' = skip 2 st.
+Proof.
+  intros Hn H. unfold pick_idx in H. destruct (random_range (N.of_nat n) st) as [[x s]|] eqn:E; [|discriminate].
+  injection H as _ <-. unfold random_range in E.
+  destruct ((N.of_nat n =? 0)%N || (p64 <=? N.of_nat n)%N); [discriminate|].
+  replace (N.ltb mask32 (N.of_nat n)) with false in E by (symmetry; apply N.ltb_ge; exact Hn).
+  injection E as E. eapply canon32_words; exact E.
+Qed.
+
+Lemma sample_edit_words es st s st' : sample_edit es st = inr (s, st') -> st' = skip 2 st.
+Proof.
+  unfold sample_edit, weighted_sample_f. destruct (windex_new_f (map snd es)) as [e|[[cum T] scale]]; [discriminate|].
+  unfold uniform_f64_sample. rewrite next_u64_as_u32s.
+  destruct (next_u32 st) as [lo st1] eqn:E1. destruct (next_u32 st1) as [hi st2] eqn:E2.
+  intros H. apply (f_equal (fun r => match r with inr (_, s) => s | inl _ => st end)) in H. cbn beta iota in H.
+  subst st'. cbn [skip]. rewrite E1. cbn [snd]. rewrite E2. reflexivity.
+Qed.
+
+Lemma seeded_words_l wc cd cs w ex st k st' : (N.of_nat (S (length w)) <= mask32)%N ->
+  edit_word_seeded wc cd cs w ex st = SOk k st' ->
+  exists n, st' = skip n st /\ n <= 6 /\ (kinds_of wc = [] -> n = 0) /\ (kinds_of wc <> [] -> 1 <= n).
+Proof.
+  intros Hb H. destruct (kinds_of wc) as [|a ks] eqn:Ek.
+  - rewrite edit_word_seeded_nil in H by exact Ek. injection H as _ <-. exists 0. repeat split; try lia. congruence.
+  - rewrite edit_word_seeded_ne in H by (rewrite Ek; discriminate).
+    destruct (pick_idx (length (kinds_of wc)) st) as [[r st1]|] eqn:Ep; [|discriminate].
+    pose proof (kinds_length wc) as Hl4.
+    assert (P1 : exists n1, st1 = skip n1 st /\ 1 <= n1 <= 2).
+    { assert (Hk4 : (N.of_nat (length (kinds_of wc)) <= mask32)%N) by (unfold mask32; lia).
+      destruct (pick_idx_words _ _ _ _ Hk4 Ep) as [->| ->]; eexists; (split; [reflexivity|lia]). }
+    destruct P1 as (n1 & -> & Hn1).
+    (* the rest of the call: at most four more words *)
+    assert (T : forall mk l s k st', (N.of_nat (length l) <= mask32)%N -> seeded_table mk (Some l) s = SOk k st' ->
+                exists n2, st' = skip n2 s /\ n2 <= 4).
+    { intros mk l s k0 s' Hl Ht. unfold seeded_table in Ht. destruct l as [|c0 l'] eqn:El.
+      - injection Ht as _ <-. exists 0. split; [reflexivity|lia].
+      - rewrite <- El in *. destruct (pick_idx (length l) s) as [[j s2]|] eqn:Ep2; [|discriminate].
+        destruct (sample_edit _ s2) as [e|[str s3]] eqn:Es; [discriminate|]. injection Ht as _ <-.
+        rewrite (sample_edit_words _ _ _ _ Es).
+        destruct (pick_idx_words _ _ _ _ Hl Ep2) as [->| ->]; rewrite <- skip_add; eexists; (split; [reflexivity|lia]). }
+    assert (I : forall mk l s k st', (N.of_nat (length l) <= mask32)%N -> seeded_index mk l s = SOk k st' ->
+                exists n2, st' = skip n2 s /\ n2 <= 4).
+    { intros mk l s k0 s' Hl Ht. unfold seeded_index in Ht. destruct l as [|c0 l'] eqn:El.
+      - injection Ht as _ <-. exists 0. split; [reflexivity|lia].
+      - rewrite <- El in *. destruct (pick_idx (length l) s) as [[j s2]|] eqn:Ep2; [|discriminate].
+        injection Ht as _ <-.
+        destruct (pick_idx_words _ _ _ _ Hl Ep2) as [->| ->]; eexists; (split; [reflexivity|lia]). }
+    assert (R : exists n2, st' = skip n2 (skip n1 st) /\ n2 <= 4).
+    { unfold seeded_kind in H. destruct (nth r (kinds_of wc) 4) as [|[|[|[|n]]]].
+      - destruct (wcollect _ _) as [l|] eqn:El; [|discriminate]. eapply T; [|exact H].
+        pose proof (wcollect_length _ _ _ El). pose proof (ins_idxs_length w ex). lia.
+      - eapply I; [|exact H]. pose proof (del_idxs_length (wfull_del wc) cd w ex). lia.
+      - destruct (wcollect _ _) as [l|] eqn:El; [|discriminate]. eapply T; [|exact H].
+        pose proof (wcollect_length _ _ _ El). pose proof (rep_idxs_length w ex). lia.
+      - destruct (1 <? length w).
+        + eapply I; [|exact H]. pose proof (swap_idxs_length cs w ex). lia.
+        + injection H as _ <-. exists 0. split; [reflexivity|lia].
+      - injection H as _ <-. exists 0. split; [reflexivity|lia]. }
+    destruct R as (n2 & -> & Hn2). rewrite <- skip_add. exists (n1 + n2). repeat split; try lia. discriminate.
+Qed.
+
+(** * The exclusion set is used as a set: order and repetitions do not influence a draw *)
+Lemma filter_ext_in_l {A} (f g : A -> bool) l : (forall a, f a = g a) -> filter f l = filter g l.
+Proof. intros H. apply filter_ext. exact H. Qed.
+
+Lemma seeded_set_ext_l wc cd cs w ex ex2 st : (forall x, In x ex <-> In x ex2) ->
+  edit_word_seeded wc cd cs w ex st = edit_word_seeded wc cd cs w ex2 st.
+Proof.
+  intros Hs. assert (Hm : forall i, mem i ex = mem i ex2) by (intros i; apply mem_ext; apply Hs).
+  unfold edit_word_seeded.
+  replace (ins_idxs w ex2) with (ins_idxs w ex) by (unfold ins_idxs; apply filter_ext; intros i; rewrite !Hm; reflexivity).
+  replace (del_idxs (wfull_del wc) cd w ex2) with (del_idxs (wfull_del wc) cd w ex)
+    by (unfold del_idxs; apply filter_ext; intros i; rewrite !Hm; reflexivity).
+  replace (rep_idxs w ex2) with (rep_idxs w ex) by (unfold rep_idxs; apply filter_ext; intros i; rewrite !Hm; reflexivity).
+  replace (swap_idxs cs w ex2) with (swap_idxs cs w ex)
+    by (unfold swap_idxs; apply filter_ext; intros i; rewrite !Hm; reflexivity).
+  reflexivity.
+Qed.
+
+Lemma apply_excl_ext k ex ex2 : (forall x, In x ex <-> In x ex2) ->
+  forall x, In x (apply_excl k ex) <-> In x (apply_excl k ex2).
+Proof.
+  intros Hs x. destruct k; cbn [apply_excl]; try apply Hs;
+    rewrite !in_app_iff, !in_map_iff; split; (intros [(p & E & Hp)|H]; [left; exists p; split; [exact E|apply Hs; exact Hp]|right; exact H]).
+Qed.
+
+(** * Chains *)
+Lemma outcomes_of_choices c cd cs w ex l k :
+  choices c cd cs w ex = Some l -> In k l ->
+  exists lo, outcomes c cd cs w ex = Some lo /\ In (apply_ed w ex k) lo.
+Proof.
+  intros H Hin. unfold outcomes. rewrite H. cbn [option_map]. eexists. split; [reflexivity|]. apply in_map. exact Hin.
+Qed.
+
+Lemma chain_seeded_chain wc pf n : forall w ex st w' ex' st', wf st -> wtabs_ok wc = true ->
+  chain_seeded wc pf n w ex st = Some (w', ex', st') ->
+  chain (erase wc) n (w, ex) (w', ex') /\ wf st'.
+Proof.
+  induction n as [|n IH]; intros w ex st w' ex' st' Hw Hok H; cbn [chain_seeded] in H.
+  - injection H as <- <- <-. split; [apply chain_0|exact Hw].
+  - destruct (edit_word_seeded wc (fst (pf w)) (snd (pf w)) w ex st) as [k st1| | |] eqn:E; try discriminate.
+    destruct (seeded_in_choices_l _ _ _ _ _ _ _ _ Hw Hok E) as (Hw1 & l & Hl & Hin).
+    destruct (outcomes_of_choices _ _ _ _ _ _ _ Hl Hin) as (lo & Hlo & Hino).
+    destruct (IH _ _ _ _ _ _ Hw1 Hok H) as [Hc Hw']. split; [|exact Hw'].
+    eapply chain_S; [exact Hlo|exact Hino|exact Hc].
+Qed.
+
+(** k edits = a edits, then b edits from the word, exclusion set and generator state they left *)
+Lemma chain_seeded_split wc pf a b : forall w ex st,
+  chain_seeded wc pf (a + b) w ex st =
+  match chain_seeded wc pf a w ex st with
+  | Some (w1, ex1, st1) => chain_seeded wc pf b w1 ex1 st1
+  | None => None
+  end.
+Proof.
+  induction a as [|a IH]; intros w ex st; cbn [chain_seeded Nat.add]; [reflexivity|].
+  destruct (edit_word_seeded wc (fst (pf w)) (snd (pf w)) w ex st); try reflexivity. apply IH.
+Qed.
+
+Lemma chain_seeded_total wc pf n : forall w ex st, wf st -> wtabs_ok wc = true ->
+  (forall m w1 ex1 st1, m <= n -> chain_seeded wc pf m w ex st = Some (w1, ex1, st1) -> (N.of_nat (S (length w1)) < p64)%N) ->
+  exists r, chain_seeded wc pf n w ex st = Some r.
+Proof.
+  induction n as [|n IH]; intros w ex st Hw Hok Hb; cbn [chain_seeded]; [eexists; reflexivity|].
+  destruct (seeded_total_l wc (fst (pf w)) (snd (pf w)) w ex st Hw Hok (Hb 0 w ex st ltac:(lia) eq_refl)) as (k & st1 & E).
+  rewrite E. destruct (seeded_in_choices_l _ _ _ _ _ _ _ _ Hw Hok E) as (Hw1 & _).
+  apply IH; [exact Hw1|exact Hok|]. intros m w1 ex1 s1 Hm Hc. apply (Hb (S m) w1 ex1 s1 ltac:(lia)).
+  cbn [chain_seeded]. rewrite E. exact Hc.
+Qed.
+
+(** * corrupt_spelling *)
+Lemma count_draws_spec n pc : forall st c st', wf st -> count_draws n pc st = (c, st') -> c <= n /\ wf st'.
+Proof.
+  induction n as [|n IH]; intros st c st' Hw H; cbn [count_draws] in H.
+  - injection H as <- <-. split; [lia|exact Hw].
+  - destruct (random_f64 st) as [k st1] eqn:E1. destruct (random_f64_spec _ _ _ Hw E1) as [_ Hw1].
+    destruct (count_draws n pc st1) as [c1 st2] eqn:E2. destruct (IH _ _ _ Hw1 E2) as [Hc Hw2].
+    injection H as <- <-. split; [destruct (fgt _ _); lia|exact Hw2].
+Qed.
+
+Lemma spell_word_chain wc pf pw pc w st o st' : wf st -> wtabs_ok wc = true ->
+  spell_word wc pf pw pc w st = Some (o, st') ->
+  wf st' /\
+  (o = Some w \/
+   exists n w' ex', 1 <= n <= Nat.max 1 (length w) /\ chain (erase wc) n (w, []) (w', ex') /\
+                    o = match concat w' with [] => None | _ => Some w' end).
+Proof.
+  intros Hw Hok H. unfold spell_word in H. destruct (random_f64 st) as [k st1] eqn:E1.
+  destruct (random_f64_spec _ _ _ Hw E1) as [_ Hw1].
+  destruct (fgt (Fin k (-53)) pw).
+  - injection H as <- <-. split; [exact Hw1|left; reflexivity].
+  - destruct (count_draws (length w) pc st1) as [n st2] eqn:E2. destruct (count_draws_spec _ _ _ _ _ Hw1 E2) as [Hn Hw2].
+    destruct (chain_seeded wc pf (Nat.max n 1) w [] st2) as [[[w' ex'] st3]|] eqn:E3; [|discriminate].
+    injection H as <- <-. destruct (chain_seeded_chain _ _ _ _ _ _ _ _ _ Hw2 Hok E3) as [Hc Hw3].
+    split; [exact Hw3|]. right. exists (Nat.max n 1), w', ex'. split; [lia|]. split; [exact Hc|reflexivity].
+Qed.
